@@ -1,4 +1,5 @@
 import JP.Lemmas.EngineTest
+import JP.Lemmas.ApplyBasic
 
 /-!
 # Engine lemmas, part 9: `copy`
@@ -133,8 +134,8 @@ def copyTail (o : Opts) (r2 : Root) (acc : Int) (op : Op) (f : Bytes) : Outcome 
 
 theorem eng_opCopy_eq (o : Opts) (r : Root) (acc : Int) (op : Op) (f : Bytes) (h : op.frm = some f) :
     opCopy o r acc op =
-      match eng_afterW r (copySource o r f) with
-      | none => failOfW (copySource o r f)
+      match eng_afterW r (copyFirst o r f) with
+      | none => failOfW (copyFirst o r f)
       | some r1 =>
         match eng_afterW r1 (withPath o r1 op.path actProbe) with
         | none => failOfW (withPath o r1 op.path actProbe)
@@ -147,16 +148,16 @@ def fstOut : Outcome (Root × Int) → Outcome Root
   | .err e => .err e
   | .panic => .panic
 
-theorem copySource_root (o : Opts) (r : Root) (hc : isCon r.con = true) :
-    copySource o r [] = .done r.con r.self := by
-  have hs : splitPath [] = some ([], []) := by simp [splitPath, splitSlash]
-  simp only [copySource, withPath, hs, eng_walk_nil]
-  cases hcon : r.con <;> simp [hcon, isCon] at hc <;> simp [conGet, doneOf]
+/-- `from = ""`: the live root itself, without a walk -/
+theorem copyFirst_root (o : Opts) (r : Root) (hc : isCon r.con = true) :
+    copyFirst o r [] = .done r.con r.con := by
+  rw [copyFirst_nil]
+  cases hcon : r.con <;> simp [hcon, isCon] at hc <;> simp [isNullN]
 
-theorem actCopySrc_ref {o : Opts} {e : Bool} {key : Bytes} (hkey : key ≠ []) :
+theorem actCopySrc_ref {o : Opts} {e : Bool} {key : Bytes} :
     ActRef e key (actCopySrc o) (Spec.getIn (specOpts o) false) (fun val v => Inv e val ∧ den val = v) := by
   intro s pc hp hc
-  have := conGet_refines (o := o) s hp hc hkey
+  have := conGet_refines (o := o) (key := key) s hp hc
   cases hg : Spec.getIn (specOpts o) false (den pc) key with
   | unspec => trivial
   | fail c =>
@@ -179,22 +180,25 @@ theorem copySource_walkRef {o : Opts} {e : Bool} {r : Root} {f : Bytes} {ft : By
       (Spec.atParent (specOpts o) (Spec.getIn (specOpts o) false) (den r.con) (ft :: fts))
       (copySource o r f) := by
   rw [copySource_eq]
-  exact withPath_walkRef hr hpf (by simp) (fun key _ hkey => actCopySrc_ref hkey)
+  exact withPath_walkRef hr hpf (by simp) (fun key _ => actCopySrc_ref)
 
 /-- first walk of `copy`: the source container is found (and parsed on the way) or the copy fails -/
 theorem copy_phase1 {o : Opts} {e : Bool} {r : Root} {f : Bytes} {ftoks : List Bytes}
     (hr : InvRoot e r) (hpf : Spec.parsePointer f = some ftoks) :
     match eng_copySrc (specOpts o) (den r.con) ftoks with
-    | .ok _ => ∃ r1, eng_afterW r (copySource o r f) = some r1 ∧ InvRoot e r1 ∧ den r1.con = den r.con
-    | .fail _ => eng_afterW r (copySource o r f) = none ∧ ∃ er, failOfW (copySource o r f) = .err er
+    | .ok _ => ∃ r1, eng_afterW r (copyFirst o r f) = some r1 ∧ InvRoot e r1 ∧ den r1.con = den r.con
+    | .fail _ => eng_afterW r (copyFirst o r f) = none ∧ ∃ er, failOfW (copyFirst o r f) = .err er
     | .unspec => True := by
   cases ftoks with
   | nil =>
     have hnil : f = [] := (parsePointer_nil_iff hpf).1 rfl
     subst hnil
-    simp only [eng_copySrc, copySource_root o r hr.2, eng_afterW]
+    simp only [eng_copySrc, copyFirst_root o r hr.2, eng_afterW]
     exact ⟨_, rfl, hr, rfl⟩
   | cons ft fts =>
+    have hne : f ≠ [] := fun h => by
+      have := (parsePointer_nil_iff hpf).2 h; cases this
+    rw [copyFirst_ne o r hne]
     have hw := copySource_walkRef (o := o) hr hpf
     simp only [eng_copySrc]
     cases hres : Spec.atParent (specOpts o) (Spec.getIn (specOpts o) false) (den r.con) (ft :: fts) with
@@ -279,7 +283,7 @@ theorem opCopy_refines {o : Opts} {r : Root} {op : Op} {sop : Spec.Op} {f : Byte
           have hw2 : WalkRef o.esc r1 (fun _ _ => True)
               (Spec.atParent (specOpts o) (fun p _ => (.ok (p, ()) : Res (Value × Unit))) (den r1.con) (pt :: pts))
               (withPath o r1 op.path actProbe) :=
-            withPath_walkRef hr1 hp (by simp) (fun key _ _ => actProbe_ref)
+            withPath_walkRef hr1 hp (by simp) (fun key _ => actProbe_ref)
           rw [hd1] at hw2
           cases hres2 : Spec.atParent (specOpts o) (fun p _ => (.ok (p, ()) : Res (Value × Unit)))
               (den r.con) (pt :: pts) with
